@@ -979,20 +979,20 @@ impl Sink {
 fn scenarios(tier: &str) -> Vec<(&'static str, usize, usize, usize, &'static str)> {
     let quick: Vec<(&'static str, usize, usize, usize, &'static str)> = vec![
         ("2/k/k", 2, 0, 2500, "-"),
-        ("2/k.k/k", 2, 0, 2500, "-"),
+        ("2/k.k/k", 2, 0, 1500, "-"),
         ("2/w0/s0", 2, 0, 2500, "-"),
-        ("2/w0/s0", 2, 1, 2500, "-"),
+        ("2/w0/s0", 2, 1, 1500, "-"),
         ("2/w0/S0", 2, 0, 2500, "-"),
         ("2/w0/o0", 2, 0, 2500, "-"),
         ("2/j1/k", 2, 0, 2000, "-"),
         ("2/j1/k", 2, 1, 2000, "-"),
         ("2/w0.j1/n.s0", 2, 0, 2500, "-"),
-        ("3/k/k/k", 2, 0, 2500, "-"),
+        ("3/k/k/k", 2, 0, 1500, "-"),
         ("3/w0/w0/s0", 1, 0, 2500, "-"),
-        ("3/w0/w0/S0", 2, 0, 2500, "-"),
+        ("3/w0/w0/S0", 2, 0, 1500, "-"),
         ("3/w0/k/o0", 1, 0, 2500, "-"),
         ("3/j1.j2/s0/w0", 1, 0, 2000, "-"),
-        ("3/w0/N.k/S0", 1, 1, 2000, "-"),
+        ("3/w0/N.k/S0", 1, 1, 1500, "-"),
         ("reloc:2/w0/g.s0", 2, 0, 1500, "-"),
         ("reloc:3/w0/w0/g.s0", 1, 0, 2000, "-"),
         ("reloc:2/k/L.g.U", 2, 0, 1500, "1"),
@@ -1002,7 +1002,7 @@ fn scenarios(tier: &str) -> Vec<(&'static str, usize, usize, usize, &'static str
     if tier == "quick" {
         return quick;
     }
-    let mut v: Vec<(&'static str, usize, usize, usize, &'static str)> = quick.iter().map(|&(s, b, sp, c, p)| (s, b, sp, c * 8, p)).collect();
+    let mut v: Vec<(&'static str, usize, usize, usize, &'static str)> = quick.iter().map(|&(s, b, sp, c, p)| (s, b, sp, c * 10, p)).collect();
     v.extend(vec![
         ("2/k.k/k.k", 3, 0, 15000, "-"),
         ("2/w0/s0", 4, 1, 15000, "-"),
